@@ -12,6 +12,71 @@ let p3 = function
   | a :: b :: c :: rest -> ((z a, z b), z c), rest
   | _ -> failwith "p3"
 
+let rec nat_of_int n = if n <= 0 then Model.O else Model.S (nat_of_int (n - 1))
+let rec int_of_nat = function Model.O -> 0 | Model.S n -> 1 + int_of_nat n
+
+let v3s ((a, b), c) = Printf.sprintf "[%s,%s,%s]" (zs a) (zs b) (zs c)
+let rats (n, d) = Printf.sprintf "[%s,%s]" (zs n) (zs d)
+let join f l = String.concat "," (List.map f l)
+
+(* tokens -> (v3, rest) *)
+let v3 = p3
+
+let rec take_sites n toks acc =
+  if n = 0 then (List.rev acc, toks)
+  else match toks with
+    | id :: sh :: rest ->
+      let pos, rest = v3 rest in
+      take_sites (n - 1) rest (((z id, z sh), pos) :: acc)
+    | _ -> failwith "sites"
+
+let cell_json (dim : Big_int_Z.big_int) g flags (c : Model.cell) =
+  let open Model in
+  let planes = join (fun p ->
+      Printf.sprintf "[%s,%s,%s,%s]" (v3s p.pn) (zs p.pd)
+        (match p.pright with Some r -> zs r | None -> "null") (zs p.pshift)) c.cplanes in
+  let verts = join (fun v ->
+      let ((a, b), d) = v.vd in
+      let (x, w) = v.vloc in
+      Printf.sprintf "[%d,%d,%d,%s,%s]" (int_of_nat a) (int_of_nat b) (int_of_nat d) (v3s x) (zs w)) c.cverts in
+  let r2 = max_radius2 dim g c.cverts in
+  let ts = decompose c g in
+  let vol6 = vol6_of g ts in
+  let csum = join (fun k -> rats (centroid_sum g ts (nat_of_int k))) [0; 1; 2] in
+  let np = List.length c.cplanes in
+  let faces = ref [] in
+  for pi = np - 1 downto 0 do
+    let pin = nat_of_int pi in
+    if plane_has_tet ts pin then begin
+      let a = face_area2n c.cplanes g ts pin in
+      let cs = join (fun k -> rats (face_centroid_sum c.cplanes g ts pin (nat_of_int k))) [0; 1; 2] in
+      faces := Printf.sprintf "[%d,%s,[%s]]" pi (rats a) cs :: !faces
+    end
+  done;
+  let extra = Buffer.create 64 in
+  if flags land 2 <> 0 then begin
+    let idx = [(0,0);(0,1);(0,2);(1,1);(1,2);(2,2)] in
+    Buffer.add_string extra (Printf.sprintf ",\"m2\":[%s]"
+      (join (fun (i, j) -> rats (moment2 g ts (nat_of_int i) (nat_of_int j))) idx))
+  end;
+  if flags land 4 <> 0 then begin
+    let fs = faces_of c in
+    let ok = List.for_all (fun (_, o) -> o <> None) fs in
+    let tf = decompose_faces c in
+    Buffer.add_string extra (Printf.sprintf ",\"wf_ok\":%b,\"wf_vol6\":%s,\"wf_csum\":[%s],\"wf_faces\":[%s]" ok
+      (rats (vol6_of g tf))
+      (join (fun k -> rats (centroid_sum g tf (nat_of_int k))) [0; 1; 2])
+      (join (fun (p, o) -> Printf.sprintf "[%d,[%s]]" (int_of_nat p)
+                (match o with Some l -> join (fun i -> string_of_int (int_of_nat i)) l | None -> "") ) fs));
+    if flags land 2 <> 0 then begin
+      let idx = [(0,0);(0,1);(0,2);(1,1);(1,2);(2,2)] in
+      Buffer.add_string extra (Printf.sprintf ",\"wf_m2\":[%s]"
+        (join (fun (i, j) -> rats (moment2 g tf (nat_of_int i) (nat_of_int j))) idx))
+    end
+  end;
+  Printf.sprintf "\"planes\":[%s],\"verts\":[%s],\"r2\":%s,\"vol6\":%s,\"csum\":[%s],\"faces\":[%s]%s"
+    planes verts (rats r2) (rats vol6) csum (String.concat "," !faces) (Buffer.contents extra)
+
 let run_line lineno line =
   match split line with
   | "insphere" :: rest ->
@@ -23,6 +88,30 @@ let run_line lineno line =
     let r = Model.insphere_model a b c d v in
     let g = List.for_all Model.in_gridb [a; b; c; d; v] in
     Printf.printf "%d %s %d\n" lineno (zs r) (if g then 1 else 0)
+  | "cell" :: dim :: flags :: rest ->
+    (* cell dim flags lo(3) hi(3) g(3) nsites (id sh x y z)*  -- all integers *)
+    let dim = z dim and flags = int_of_string flags in
+    let lo, rest = v3 rest in
+    let hi, rest = v3 rest in
+    let g, rest = v3 rest in
+    (match rest with
+     | n :: rest ->
+       let sites, _ = take_sites (int_of_string n) rest [] in
+       let body = match Model.build dim lo hi g sites with
+         | None -> "\"ok\":false"
+         | Some c ->
+           let chk = if flags land 8 <> 0 then
+               Printf.sprintf "\"feasible\":%b,\"oriented\":%b," (Model.vertices_feasible g sites c) (Model.duals_oriented c)
+             else "" in
+           "\"ok\":true," ^ chk ^ cell_json dim g flags c in
+       let body_all =
+         if flags land 1 <> 0 then
+           (match Model.build_all lo hi g sites with
+            | None -> ",\"all\":null"
+            | Some c -> ",\"all\":{" ^ cell_json dim g 0 c ^ "}")
+         else "" in
+       Printf.printf "%d {%s%s}\n" lineno body body_all
+     | _ -> failwith "cell")
   | "insphere_sweep" :: k :: off :: ai :: _ ->
     let k = int_of_string k and off = z off and ai = int_of_string ai in
     let pt i =
